@@ -368,7 +368,12 @@ def run_bads(cfg):
     def target(x):
         rec.target_calls += 1
         x = np.atleast_2d(x)
-        v = float(np.sum((x - cfg.get("opt", 0.3)) ** 2) + 0.3 * np.sum(np.sin(3 * x)))
+        if cfg.get("obj") == "lin":        # a slope towards the lower bound: long sprees of successful searches, then failures at the bound
+            v = float(np.sum(x) + 0.01 * np.sum(x ** 2))
+        elif cfg.get("obj") == "rugged":   # many local minima: the poll mesh shrinks and grows again
+            v = float(np.sum(x) + 0.8 * np.sum(np.sin(37 * x)))
+        else:
+            v = float(np.sum((x - cfg.get("opt", 0.3)) ** 2) + 0.3 * np.sum(np.sin(3 * x)))
         if cfg.get("noise"):
             v += float(nrng.normal()) * 0.05
         return v
@@ -387,6 +392,8 @@ def run_bads(cfg):
         # box [lb_search, ub_search] is strictly inside the hard box
         lb, ub = -13.37 * np.ones(D), 14.71 * np.ones(D)
         plb, pub = -5.0 * np.ones(D), 5.0 * np.ones(D)
+        if cfg.get("narrow_plausible"):
+            plb, pub = -1.0 * np.ones(D), 1.0 * np.ones(D)
         x0 = float(cfg.get("x0", 4.0)) * np.ones(D)
     else:
         lb, ub = -2.0 * np.ones(D), 2.0 * np.ones(D)
@@ -436,8 +443,8 @@ def panel(tier_quick, seed):
         dict(D=2, budget=70, cons="none", n_search=96, iters=2, box="odd", opt=16.0, x0=12.0, widen=True),
         # ... and the search mesh COARSENS during the run (search_mesh_expand: after successful searches): the mesh-rounded box
         # must follow the current mesh in both directions
-        dict(D=2, budget=80, cons="none", n_search=64, iters=2, box="odd", opt=16.0, x0=4.0, opts=dict(search_mesh_expand=1)),
-        dict(D=1, budget=70, cons="none", n_search=64, iters=2, box="odd", opt=-15.0, x0=-4.0, opts=dict(search_mesh_expand=1)),
+        dict(D=2, budget=70, cons="none", n_search=64, iters=2, box="odd", obj="lin", narrow_plausible=True, x0=0.5, opts=dict(search_mesh_expand=1)),
+        dict(D=2, budget=110, cons="none", n_search=64, iters=2, box="odd", obj="rugged", narrow_plausible=True, x0=0.5),
         # acquisition values replaced by NaN for a random subset of the candidates (from outside): np.argsort ranks NaN last
         dict(D=2, budget=50, cons="none", n_search=32, iters=3, nan_acq=True),
         dict(D=2, budget=50, cons="wband", n_search=48, iters=2, nan_acq=True),
